@@ -13,6 +13,16 @@ CHECKS = {
         "theorems are axiom-free (Print Assumptions: closed). Inputs restricted to 64-bit representable integers.",
    technique="Coq proof over regenerated model (ast->Gallina) + vm_compute correspondence",
    design="DESIGN.md §4 C05"),
+ "C08": dict(
+   text="Machine-checked proof (Coq 8.16.1): the gid kernels (ast->Gallina) and the COMPLETE geometry tables are regenerated from "
+        "the working tree on every run; complete computations inside Coq show get_emc_gid / get_mdc_gid enumerate the documented "
+        "element order onto 0..6239 / 0..6795 (density, range, monotone order), that the tables list exactly those elements in gid "
+        "order, that the maps are mutually inverse over all real elements, and (with the C05 codec lemmas) that the gid parsed from a "
+        "digi identifier equals the gid of its fields. Python glue (parse_*) is tied by an exhaustive correspondence on all elements.",
+   note="Trusted: Coq kernel+vm_compute; translators (py2coq_bits, gen_geom incl. numpy.load of the .npz); hand model of parse_* "
+        "glue checked exhaustively; theorems axiom-free.",
+   technique="Coq proof (complete finite computation) over regenerated kernels+tables + exhaustive correspondence",
+   design="DESIGN.md §4 C08"),
 }
 NOT_YET = {}
 def main():
